@@ -258,7 +258,7 @@ func zero(t types.Type) value {
 		}
 		return s
 	case *types.Chan:
-		return chan value(nil)
+		return (*chanv)(nil)
 	case *types.Map:
 		return (*omap)(nil)
 	case *types.Signature:
@@ -979,7 +979,8 @@ func callBuiltin(caller *frame, callpos token.Pos, fn *ssa.Builtin, args []value
 		return copy(args[0].([]value), src.([]value))
 
 	case "close": // close(chan T)
-		close(args[0].(chan value))
+		ch, _ := args[0].(*chanv)
+		caller.i.chanClose(caller, ch)
 		return nil
 
 	case "delete": // delete(map[K]value, K)
@@ -1022,8 +1023,11 @@ func callBuiltin(caller *frame, callpos token.Pos, fn *ssa.Builtin, args []value
 			return x.len()
 		case sym:
 			return symStrLen(x)
-		case chan value:
-			return len(x)
+		case *chanv:
+			if x == nil {
+				return 0
+			}
+			return len(x.buf)
 		default:
 			panic(fmt.Sprintf("len: illegal operand: %T", x))
 		}
